@@ -74,6 +74,10 @@ def placements(v):
     yield 'dict-val-long-key', {'k' * 30: v}
     yield 'call-arg', Call(v)
     yield 'call-kwarg', Call(1, kw=v)
+    from prettyprinter import comment, trailing_comment
+    yield 'commented-in-list', [comment(v, 'note'), 1]
+    if isinstance(v, (list, tuple, set, dict)):
+        yield 'trailing-comment-in-list', [trailing_comment(v, 'more'), 1]
     try:
         hash(v)
     except TypeError:
@@ -85,7 +89,8 @@ def placements(v):
 def check_instance(v, part):
     ns = fixtures.namespace()
     for pname, placed in placements(v):
-        expr = oracles.expr_of(placed)
+        expected_value = [v, 1] if pname in ('commented-in-list', 'trailing-comment-in-list') else placed
+        expr = oracles.expr_of(expected_value) + (' # placement: ' + pname if expected_value is not placed else '')
         base, L = oracles.one_line(placed)
         if base.text is None:
             part.n += 1
@@ -114,7 +119,7 @@ def check_instance(v, part):
                     except Exception as e:     # noqa
                         verdict = ('not-evaluable', '%s: %s' % (type(e).__name__, e))
                     else:
-                        same = (got == placed) if isinstance(placed, Call) else oracles.typed_eq(got, placed)
+                        same = (got == placed) if isinstance(placed, Call) else oracles.typed_eq(got, expected_value)
                         verdict = ('ok', None) if same else ('class-or-value-lost', repr(got)[:200])
                     cache[res.text] = verdict
                 if verdict[0] != 'ok':
@@ -135,9 +140,46 @@ def work(item):
     return part
 
 
+def short_lived_classes(part, rounds):
+    """Subclasses that are created, printed and garbage collected one after another: each must be
+    printed under its *own* name (anything remembered per class must die with the class)."""
+    import gc
+    import sys
+    mod = sys.modules[fixtures.__name__]
+    ns = fixtures.namespace()
+    samples = {list: [1, 2], tuple: (1, 2), set: {1}, frozenset: frozenset([1]), dict: {'a': 1}, str: 'abc', bytes: b'abc',
+               int: 7, float: 1.5}
+    for r in range(rounds):
+        for bi, (base, bv) in enumerate(samples.items()):
+            name = 'Tmp%s%d' % (base.__name__.capitalize(), r)
+            cls = type(name, (base,), {'__module__': fixtures.__name__})
+            cls.__qualname__ = name
+            setattr(mod, name, cls)
+            v = cls(bv)
+            part.n += 1
+            res = oracles.run_pformat([v, 1], width=30)
+            ok = False
+            why = res.exc or res.warnings
+            if res.ok():
+                try:
+                    got = oracles.eval_in(res.text, ns)
+                    ok = type(got[0]) is cls and base(got[0]) == bv
+                    why = repr(got)[:100]
+                except Exception as e:     # noqa
+                    why = repr(e)[:200]
+            if not ok:
+                part.violation('short-lived-class-printed-under-another-name', {'class': name, 'base': base.__name__, 'round': r},
+                               {'output': res.text, 'why': why})
+            delattr(mod, name)
+            del cls, v
+            gc.collect()
+    part.c['short_lived_classes'] += rounds * len(samples)
+
+
 def run(tier, seed):
     fixtures.register()
     res = core.Result(PROPERTY, LEVEL, tier, seed)
+    short_lived_classes(res.agg, 30 if tier == 'quick' else 300)
     total = sum(1 for _ in instances())
     res.add(core.pmap(work, core.chunks(total, 64)))
     a = res.agg
@@ -158,7 +200,13 @@ def replay(case):
     env = dict(ns)
     env.update({c.__name__: c for cs in fixtures.SUBCLASSES.values() for c in cs})
     env.update({'IE': fixtures.IE})
-    placed = eval(case['value'], env)
+    src = case['value'].split(' # placement: ')[0]
+    placed = eval(src, env)
+    expected_value = placed
+    if case.get('placement') in ('commented-in-list', 'trailing-comment-in-list'):
+        from prettyprinter import comment, trailing_comment
+        wrap = comment if case['placement'] == 'commented-in-list' else trailing_comment
+        placed = [wrap(placed[0], 'note' if wrap is comment else 'more'), 1]
     r = oracles.run_pformat(placed, **case['config'])
     lines = ['value: %s' % case['value'], 'config: %s' % case['config'], 'output:', str(r.text),
              'exc: %s warnings: %s' % (r.exc, r.warnings)]
@@ -166,7 +214,7 @@ def replay(case):
     if ok:
         try:
             got = oracles.eval_in(r.text, ns)
-            ok = (got == placed) if isinstance(placed, Call) else oracles.typed_eq(got, placed)
+            ok = (got == placed) if isinstance(placed, Call) else oracles.typed_eq(got, expected_value)
             lines.append('evaluates to: %r' % (got,))
         except Exception as e:     # noqa
             ok = False
